@@ -15,6 +15,7 @@ Definition t_gcc := Eval compute in lit "gcc"%string.
 Definition t_gccm := Eval compute in lit "gccm"%string.
 Definition t_cfgm := Eval compute in lit "cfgm"%string.
 Definition t_entrym := Eval compute in lit "entrym"%string.
+Definition t_gccrep := Eval compute in lit "gccrep"%string.
 
 Definition OK1 : str := [49].
 Definition BAD : list str := [[66]].
@@ -130,6 +131,25 @@ Definition run (fields : list str) : list str :=
                 match import_entry dir file src with
                 | EOk e => OK1 :: flat_map (probe_t (cfg_macros (e_defs e) (e_undefs e))) names
                 | EQuote => QERR | EUB => UB | EEnv => ENV | EFuel => FUEL
+                end
+            end
+        | _ => BAD
+        end
+      else if str_eqb tag t_gccrep then
+        (* dir argv...: what the options specify, in the representation of an imported entry
+           (first field: hypothesis of C32_parse_args_exact holds) *)
+        match a with
+        | dir :: argv =>
+            match gcc_toks argv with
+            | None => [[78]]
+            | Some l =>
+                let d0 := from_native dir in
+                let directory := if last_is 47 d0 then d0 else d0 ++ [47] in
+                match fs_set_includes directory (dedup (tok_incs l)) with
+                | IOk incs => str_of_bool (forallb tok_ok l) :: lenc incs ++ lenc (tok_sys l) ++
+                              [fs_set_defines (concat (map (fun d => d ++ [59]) (tok_defs l)))] ++
+                              lenc (sort_set (tok_undefs l)) ++ [tok_std l]
+                | IEnv => ENV | IFuel => FUEL
                 end
             end
         | _ => BAD
